@@ -129,6 +129,8 @@ pub fn call(ev: Ev, expr: &str, ph: &Val) -> Outcome {
         // a Float zero has two twins: the zero of the other sign and the Integer zero
         let t = match (ph, crate::prng::fnv(expr.as_bytes()) % 8 < 4) {
             (Val::NF(x), true) if *x == 0.0 => Val::NF(-*x),
+            // a complex placeholder has two twins: the conjugate and the one with the parts swapped
+            (Val::C(a, b), true) => Val::C(*b, *a),
             _ => t,
         };
         let _ = call_with(ev, expr, &t, c02_budget(len), 0);
